@@ -79,6 +79,18 @@ Theorem C13_out_order_independent :
     nodup_keys m1 = true -> Permutation m1 m2 -> out_preimage m1 = out_preimage m2.
 Proof. exact out_order_independent. Qed.
 
+(* cfg_equiv says "same finite maps": equal lookups for every key. For the environment map
+   lookup gives None (not tracked), Some None (tracked, not defined) or Some (Some value). *)
+Theorem C13_cfg_equiv_same_finite_maps :
+  forall c1 c2 : cfg,
+    nodup_keys (cfg_inps c1) = true -> nodup_keys (cfg_envs c1) = true ->
+    nodup_keys (cfg_ovrs c1) = true -> cfg_equiv c1 c2 ->
+    cfg_label c1 = cfg_label c2 /\ cfg_shell c1 = cfg_shell c2 /\
+    forall k, lookup k (cfg_inps c1) = lookup k (cfg_inps c2)
+              /\ lookup k (cfg_envs c1) = lookup k (cfg_envs c2)
+              /\ lookup k (cfg_ovrs c1) = lookup k (cfg_ovrs c2).
+Proof. exact cfg_equiv_same_maps. Qed.
+
 (* ---------- refutations of the full statements on the current encoding ---------- *)
 (* D2: an unknown digest is hashed as the one-byte bytes word b"u". *)
 Theorem C13_out_full_refuted :
